@@ -51,7 +51,20 @@ pub fn name_pool(r: &mut Rng, n: usize, style: LabelStyle, max_label: usize) -> 
             let l = if r.chance(1, 3) && !pool.is_empty() {
                 // reuse a label seen elsewhere: names differing only in a leading/trailing label
                 let other = &pool[r.usize_below(pool.len())];
-                if other.is_empty() { label(r, style, max_label) } else { other[r.usize_below(other.len())].clone() }
+                if other.is_empty() {
+                    label(r, style, max_label)
+                } else {
+                    let mut l = other[r.usize_below(other.len())].clone();
+                    if r.chance(1, 6) {
+                        // same label up to ASCII case: must not be conflated by a compression table
+                        for b in l.iter_mut() {
+                            if b.is_ascii_alphabetic() && r.chance(1, 2) {
+                                *b ^= 0x20;
+                            }
+                        }
+                    }
+                    l
+                }
             } else {
                 label(r, style, max_label)
             };
@@ -106,6 +119,26 @@ pub fn rdata_fields(r: &mut Rng, rtype: u16, pool: &[Labels], sz: &Sizes) -> Vec
         t::HINFO | t::ISDN => vec![F::Str(cstr(r, sz.blob_max)), F::Str(cstr(r, sz.blob_max))],
         t::MINFO => vec![nm(r, Must), nm(r, Must)],
         t::MX => vec![F::U16(r.next_u64() as u16), nm(r, Must)],
+        t::TXT if r.chance(1, 5) => {
+            // a text cut into 254-byte strings, lengths around the chunk boundaries
+            let len = match r.below(8) {
+                0 => 253,
+                1 => 254,
+                2 => 255,
+                3 => 507,
+                4 => 508,
+                5 => 509,
+                6 => 762,
+                _ => r.usize_below(600),
+            };
+            const A: &[u8] = b"abcdefghijklmnopqrstuvwxyz =;0123456789";
+            let text: Vec<u8> = (0..len).map(|_| *r.pick(A)).collect();
+            if text.is_empty() {
+                vec![F::Str(vec![])]
+            } else {
+                text.chunks(254).map(|c| F::Str(c.to_vec())).collect()
+            }
+        }
         t::TXT => {
             let n = r.usize_below(sz.txt_strings_max + 1);
             if n == 0 {
@@ -160,9 +193,22 @@ pub fn rdata_fields(r: &mut Rng, rtype: u16, pool: &[Labels], sz: &Sizes) -> Vec
             let mut v = vec![F::U16(r.next_u64() as u16), nm(r, Never)];
             let n = r.usize_below(4);
             let mut key = 0u16;
-            for _ in 0..n {
-                key += 1 + r.below(3) as u16;
-                let val = blob(r, sz.blob_max);
+            for i in 0..n {
+                key = if i == 0 { r.below(3) as u16 } else { key + 1 + r.below(3) as u16 };
+                let val = match key {
+                    0 => {
+                        let k = 2 * r.usize_below(3);
+                        r.bytes(k)
+                    }
+                    2 => vec![],
+                    3 => r.bytes(2),
+                    4 => {
+                        let k = 4 * (1 + r.usize_below(2));
+                        r.bytes(k)
+                    }
+                    6 => r.bytes(16),
+                    _ => blob(r, sz.blob_max),
+                };
                 v.push(F::U16(key));
                 v.push(F::U16(val.len() as u16));
                 v.push(F::Bytes(val));
